@@ -391,7 +391,7 @@ theorem C01_canonical_option (cfg : Cfg) (ctx : ClsCtx) (d : DocC) (call : Call)
 theorem C01_canonical_add_test (cfg : Cfg) (ctx : ClsCtx) (d : DocC) (call : Call)
     (hc : Canonical d) (hn : call.lname = lit "add_test") :
     ((Item.cmd (some d) call).spec cfg ctx).top =
-      [.ctest (nameOf call.singles).1 (joinNl (d.lines ++ [[]])) (ctestParams call.singles)] := by
+      [.ctest (nameOf call.allTexts).1 (joinNl (d.lines ++ [[]])) (ctestParams call.allTexts)] := by
   rw [spec_cmd_add_test cfg ctx _ call hn (Or.inl rfl), ← C01_canonical_doc d hc]
 
 /-- any other documented single command -/
@@ -474,7 +474,7 @@ theorem C01_item_entry_core (cfg : Cfg) (ctx : ClsCtx) (it : Item) (hk : it.TopK
         · intro t; simp [Entry.docOf, isModule]
         · intro d'; simp [Item.withDoc, spec_cmd_option cfg ctx _ call h2]
       · by_cases h3 : call.lname = lit "add_test"
-        · refine ⟨fun t => .ctest (nameOf call.singles).1 t (ctestParams call.singles), [], {}, ?_, ?_⟩
+        · refine ⟨fun t => .ctest (nameOf call.allTexts).1 t (ctestParams call.allTexts), [], {}, ?_, ?_⟩
           · intro t; simp [Entry.docOf, isModule]
           · intro d'; simp [Item.withDoc, spec_cmd_add_test cfg ctx (some d') call h3 (Or.inl rfl)]
         · refine ⟨fun t => .generic call.lname t (argTexts call.toCmd.args), [], {}, ?_, ?_⟩
